@@ -234,6 +234,15 @@ pub fn s_amt() -> Vec<WCfg> {
                 }
             }
         }
+        // fixed-amount invoice with a conflicting sender-declared amount: not a trampoline payment at all
+        for (vn, v) in [("tlv-lower", 100_000u64), ("tlv-higher", 5_000_000)] {
+            let mut c = mk(&format!("fixed/{}", vn));
+            let inv = c.add_invoice(&InvoiceSpec::fixed(1, amount));
+            let need_v = c.required(v).min(2_000_000_000_000_000_000) as u64;
+            let t = add_htlc_full(&mut c, "k1", inv, need_v.max(1), Some(need_v.max(1)), Some(common::tu64(v)));
+            c.templates[t].class = Class::NotTrampoline;
+            out.push(c);
+        }
         // amountless invoice + declared amount
         for (an, a) in [("1e6", 1_000_000u64), ("zero", 0), ("2^63", 1 << 63), ("max-5", u64::MAX - 5), ("1e6+1", 1_000_001)] {
             let mut c = mk(&format!("amountless/{}", an));
@@ -739,6 +748,57 @@ pub fn s_passthrough(thorough: bool) -> Vec<WCfg> {
                 }
             }
         }
+    }
+    out
+}
+
+
+// ---------------------------------------------------------------- C14 isolation
+
+/// Payment A (hash tag 1) is frozen after `k` of its events; payment B (hash tag 2) runs S-life.
+pub fn s_isolation(thorough: bool) -> Vec<WCfg> {
+    let mut out = Vec::new();
+    for a_kind in ["funded", "partial"] {
+        let mk = |with_a: bool| {
+            let mut c = WCfg::base("x");
+            let ia = c.add_invoice(&InvoiceSpec::fixed(1, 1_000_000));
+            let ib = c.add_invoice(&InvoiceSpec::fixed(2, 2_000_000));
+            if with_a {
+                if a_kind == "funded" {
+                    c.add_htlc("a", ia, 1_005_000, 1_005_000);
+                } else {
+                    c.add_htlc("a", ia, 500_000, 1_005_000);
+                }
+            }
+            c.add_htlc("b1", ib, 1_200_000, 2_010_000);
+            c.add_htlc("b2", ib, 810_000, 2_010_000);
+            c.max_parts = 2;
+            c.max_crashes = 0;
+            c.write_faults = true;
+            c.max_advances = 50;
+            c.reorder_delivery = true;
+            c
+        };
+        let solo = {
+            let mut s = mk(false);
+            s.name = format!("S-iso/{}/solo", a_kind);
+            with_props(s, &[])
+        };
+        let max_k = if a_kind == "funded" { 10 } else { 3 };
+        for k in 1..=max_k {
+            let mut c = mk(true);
+            c.name = format!("S-iso/{}/freeze-after-{}", a_kind, k);
+            let fa = c.invoices[0].hash_hex.clone();
+            let fb = c.invoices[1].hash_hex.clone();
+            c.freeze = Some(crate::engine_w::Freeze {
+                hash_hex: fa,
+                after: k,
+                solo: solo.clone(),
+                other_hash_hex: fb,
+            });
+            out.push(c);
+        }
+        let _ = thorough;
     }
     out
 }
